@@ -23,10 +23,9 @@ Definition w_ok (x : str) : bool := negb (has_char cDollar x) && negb (has_char 
 Lemma w_good x : w_ok x = true -> ref_good w_def w_retrieve w_val (w_pfx ++ x).
 Proof.
   unfold w_ok. intros H. apply andb_true_iff in H as [H1 H2]. apply negb_true_iff in H1, H2.
-  unfold ref_good. split; [|split; [|split]].
+  unfold ref_good. split; [|split].
   - unfold name_ok. rewrite !has_char_app, H1, H2. reflexivity.
   - unfold ref_ok. rewrite has_char_app. reflexivity.
-  - reflexivity.
   - exists (mkRet (CStr w_text) None). split; [|reflexivity].
     change (w_pfx ++ x) with (w_def ++ cColon :: x).
     rewrite expand_uri_full by reflexivity. now rewrite H1.
@@ -59,13 +58,18 @@ Proof.
   apply H. vm_cast_no_check (eq_refl true).
 Qed.
 
+Lemma w_plain ts : plain w_val ts.
+Proof. intros n _. reflexivity. Qed.
+
 Lemma many_refs_refused :
   wf w_def w_retrieve w_val (w_tokens 1000) /\
+  plain w_val (w_tokens 1000) /\
   has_text (w_tokens 1000) = true /\
   nrefs (w_tokens 1000) = 1000 /\
   resolve_string w_def w_retrieve (flatten (w_tokens 1000)) = Err [ETooMany].
 Proof.
   split; [apply w_tokens_wf; vm_cast_no_check (eq_refl true)|].
+  split; [apply w_plain|].
   split; [reflexivity|]. split; [vm_cast_no_check (eq_refl 1000)|exact w_1000_refused].
 Qed.
 
@@ -75,6 +79,7 @@ Lemma just_below_resolves :
 Proof.
   apply tokens_main.
   - apply w_tokens_wf. vm_cast_no_check (eq_refl true).
+  - apply w_plain.
   - left. reflexivity.
   - assert (H : nrefs (w_tokens 999) = 999) by (vm_cast_no_check (eq_refl 999)). rewrite H. lia.
 Qed.
